@@ -69,6 +69,8 @@ def run_gev(case, R):
     try:
         w = bf.get_gev_vector(Px, Pn, use_eig=case['use_eig'])
     except Exception as e:
+        if not instr.is_library_exception(e):
+            raise
         R.fail('C12.gev', 'gev/raised', f'get_gev_vector raised {type(e).__name__}: {str(e)[:100]}', **info)
         return
     if w.shape != Px.shape[:-1] or not np.isfinite(w).all():
@@ -100,6 +102,8 @@ def run_gev(case, R):
             try:
                 v = get_bf_vector(name, Px, Pn)
             except Exception as e:
+                if not instr.is_library_exception(e):
+                    raise
                 R.count(f'other beamformer {name} raised {type(e).__name__}')
                 continue
             den = quad(v, Pn)
@@ -126,6 +130,8 @@ def run_pca(case, R):
         try:
             w = get_pca_vector(P, scaling=scaling)
         except Exception as e:
+            if not instr.is_library_exception(e):
+                raise
             R.fail('C12.pca', f'pca/raised/{scaling}', f'{type(e).__name__}: {str(e)[:100]}', **info)
             continue
         if w.shape != P.shape[:-1]:
@@ -160,6 +166,8 @@ def run_rank1(case, R):
             else:
                 Q = bw.get_gev_rank_one_estimate(P, Pn, **({'use_eig': True} if ':' in which else {}))
         except Exception as e:
+            if not instr.is_library_exception(e):
+                raise
             R.fail('C12.rank1', f'rank1/raised/{which}', f'{type(e).__name__}: {str(e)[:100]}', **info)
             continue
         if Q.shape != P.shape or not np.isfinite(Q).all():
@@ -188,6 +196,8 @@ def run_ban(case, R):
     try:
         v = ban(w, Pn)
     except Exception as e:
+        if not instr.is_library_exception(e):
+            raise
         R.fail('C12.ban', 'ban/raised', f'{type(e).__name__}: {str(e)[:100]}', **info)
         return
     PP = np.einsum('...ab,...bc->...ac', Pn, Pn)
